@@ -7,11 +7,15 @@ import (
 	"strings"
 	"time"
 
+	"github.com/spf13/pflag"
+
+	"github.com/form3tech-oss/f1/v2/internal/trigger"
 	"github.com/form3tech-oss/f1/v2/internal/trigger/api"
 	"github.com/form3tech-oss/f1/v2/internal/trigger/constant"
 	"github.com/form3tech-oss/f1/v2/internal/trigger/gaussian"
 	"github.com/form3tech-oss/f1/v2/internal/trigger/ramp"
 	"github.com/form3tech-oss/f1/v2/internal/trigger/staged"
+	"github.com/form3tech-oss/f1/v2/internal/ui"
 	"github.com/form3tech-oss/f1/v2/internal/verifsim/simrt"
 )
 
@@ -46,6 +50,7 @@ type H5Cfg struct {
 	RandBeyond    bool      `json:"rand_beyond,omitempty"`
 	ConstRate     int       `json:"const_rate,omitempty"`    // kind constant: N of "N/<freq>"
 	PureTicks     int64     `json:"pure_ticks,omitempty"`    // dist kind: evaluate this many consecutive sub-ticks back to back
+	ViaBuilder    bool      `json:"via_builder,omitempty"`   // built from command-line flags by f1's own builder (twin: built directly)
 	EvalSleepNs   []int64   `json:"eval_sleep_ns,omitempty"` // the k-th rate evaluation takes this long (cyclic; the first is never delayed)
 	BodyNs        []int64   `json:"body_ns,omitempty"`       // duration of the k-th started iteration (cyclic); empty = instantaneous
 	Direct        bool      `json:"direct,omitempty"`        // evaluate with a plain ticker loop instead of the real pool (large rates)
@@ -186,6 +191,9 @@ func h5Build(env *Env, c *H5Cfg, sh *h5Shared) (*api.Rates, error) {
 		return v
 	}
 	freq := time.Duration(c.FreqMs) * time.Millisecond
+	if c.ViaBuilder {
+		return h5ViaBuilder(c)
+	}
 	switch c.Kind {
 	case "staged":
 		var start *time.Time
@@ -234,6 +242,44 @@ func h5Build(env *Env, c *H5Cfg, sh *h5Shared) (*api.Rates, error) {
 		return &api.Rates{IterationDuration: freq, Rate: api.WithJitter(scripted, c.Jitter)}, nil
 	}
 	return nil, fmt.Errorf("unknown kind %s", c.Kind)
+}
+
+// h5ViaBuilder builds the profile the way `f1 run <mode> --flag…` does: f1's builder parses a flag set and hands
+// the trigger (and the chart command) one rate closure. The tick interval is what the configuration spells.
+func h5ViaBuilder(c *H5Cfg) (*api.Rates, error) {
+	var args []string
+	mode := c.Kind
+	switch c.Kind {
+	case "staged":
+		args = []string{"--stages=" + stagesString(c.Stages, c.Spell), fmt.Sprintf("--iterationFrequency=%dms", c.FreqMs)}
+	case "ramp":
+		args = []string{fmt.Sprintf("--start-rate=%d/%dms", c.RampFrom, c.RampUnitMs), fmt.Sprintf("--end-rate=%d/%dms", c.RampTo, c.RampUnitMs), fmt.Sprintf("--ramp-duration=%dms", c.RampDurMs)}
+	case "gaussian":
+		args = []string{fmt.Sprintf("--volume=%v", c.Volume), fmt.Sprintf("--repeat=%dms", c.RepeatMs), fmt.Sprintf("--iteration-frequency=%dms", c.FreqMs),
+			fmt.Sprintf("--peak=%dms", c.PeakMs), fmt.Sprintf("--standard-deviation=%dms", c.StddevMs), "--weights=" + weightsString(c.Weights)}
+	case "constant":
+		args = []string{fmt.Sprintf("--rate=%d/%dms", c.ConstRate, c.FreqMs)}
+	default:
+		return nil, fmt.Errorf("no builder for kind %s", c.Kind)
+	}
+	args = append(args, "--distribution="+c.Dist, fmt.Sprintf("--jitter=%v", c.Jitter))
+	b := builderFor(trigger.GetBuilders(ui.NewDiscardOutput()), mode)
+	if b == nil {
+		return nil, fmt.Errorf("no builder for mode %s", mode)
+	}
+	fs := pflag.NewFlagSet("h5", pflag.ContinueOnError)
+	fs.AddFlagSet(b.Flags)
+	if fs.Lookup("max-duration") == nil {
+		fs.Duration("max-duration", time.Second, "")
+	}
+	if err := fs.Parse(args); err != nil {
+		return nil, err
+	}
+	t, err := b.New(fs)
+	if err != nil {
+		return nil, err
+	}
+	return &api.Rates{Rate: t.DryRun, IterationDuration: time.Duration(h5Interval(c)), Duration: t.Duration}, nil
 }
 
 type h5 struct{}
@@ -452,6 +498,10 @@ func (h5) Gen(prop, tier string, r *simrt.Rng) (any, simrt.Config) {
 	if c.Kind == "dist" || c.Kind == "jitter" {
 		c.Direct = big*int64(1+c.RunNs/(c.FreqMs*ms))/int64(len(c.Rates)) > 4000
 	}
+	if (c.Kind == "staged" || c.Kind == "ramp" || c.Kind == "gaussian" || c.Kind == "constant") && c.Jitter == 0 && c.Dist != "random" &&
+		!c.ExplicitStart && c.RampToUnitMs == 0 && c.PureTicks == 0 && r.Intn(4) == 0 {
+		c.ViaBuilder = true
+	}
 	sc := simrt.Config{
 		Strategy: simrt.Pick(r, "sticky", "rr", "rw"), SwitchProb: 0.01, MaxSimNs: c.StartOffsetNs + c.RunNs + int64(time.Hour), MaxSteps: 3000000,
 		RandExtreme: simrt.Pick(r, 0.0, 0.1, 0.4),
@@ -527,6 +577,23 @@ func (h h5) Run(env *Env, cfg any) {
 		return
 	}
 	h5Cadence(env, c, sh, stats)
+	if c.ViaBuilder {
+		// the trigger built from the command line is the profile of its parameters: evaluated at the same instants
+		// it returns what a freshly constructed profile returns
+		prop := map[string]string{"staged": "C10", "ramp": "C10", "gaussian": "C11", "constant": "C12"}[c.Kind]
+		if len(sh.inner) != len(sh.outer) {
+			env.Violate(prop, "builder-differs-from-profile", "builder/"+c.Kind, "%d evaluations of the built trigger, %d of the profile", len(sh.outer), len(sh.inner))
+		} else {
+			for i := range sh.outer {
+				if sh.outer[i].V != sh.inner[i].V {
+					env.Violate(prop, "builder-differs-from-profile", "builder/"+c.Kind, "evaluation %d (tick at +%s): the trigger built by `f1 run %s` asks for %d, the %s profile of the same parameters for %d (%s)",
+						i, dur(sh.outer[i].ArgNs-sh.outer[0].ArgNs), c.Kind, sh.outer[i].V, c.Kind, sh.inner[i].V, (h5{}).Describe(c))
+					break
+				}
+			}
+			env.Hit("h5.builder_twin_checked")
+		}
+	}
 	if c.Jitter > 0 && c.Kind != "jitter" && c.Kind != "dist" && c.Kind != "constant" {
 		if c.Dist == "none" {
 			h5Jitter(env, c, sh)
